@@ -62,6 +62,17 @@ def main():
             a0 = val(kinds[0][1])
             a1 = a0 if j % 3 == 0 else val(kinds[1][1])     # equal operands a third of the time
             cex.append({"fn": name, "args": [a0, a1], "new": "?", "old": "?"})
+    # the entries of group BytesPub in translator/replay_map.py (aliases of the worker entries, `&mut` accessors)
+    m = xsearch._load_map()
+    extra = {k: v for k, v in m.REPLAY.items() if k.startswith("pub_bytes_") or k in ("get_mut", "first_mut", "last_mut", "split_first_mut", "split_last_mut")}
+
+    def blist():
+        return "[" + ", ".join(str(rnd.choice([0, 97, 98, 255])) for _ in range(rnd.choice([0, 1, 2, 3, 5]))) + "]"
+    for name, ent in sorted(extra.items()):
+        for j in range(n):
+            args = [blist() if k in ("bytes", "bytes_mut") else str(rnd.choice([0, 1, 2, 4, 5, 2**64 - 1])) for k in ent[0]]
+            cex.append({"fn": name, "args": args, "new": "?", "old": "?"})
+    auto = dict(auto, **extra)
     rep = xsearch.replay_on_implementation(cex, os.path.join(core.BUILD, "selftest_cmp_replays"))
     if rep and "error" in rep[0]:
         print(rep[0]["error"]); sys.exit(2)
